@@ -2,11 +2,11 @@ package main
 
 import (
 	"fmt"
-	"os"
-	"sort"
 	"go/constant"
 	"go/token"
 	"go/types"
+	"os"
+	"sort"
 	"strings"
 
 	"golang.org/x/tools/go/ssa"
@@ -514,6 +514,7 @@ func (fr *FuncRun) enterLoop(f *Frame, head *ssa.BasicBlock, body map[*ssa.Basic
 	}
 	// 3. havoc the write set
 	pre := cur.clone()
+	preLines, preReach := len(fr.lines), cur.reach
 	topAtEntry := fr.allocTop
 	// (the objects allocated by earlier iterations lie between the mark at loop entry and the mark at the loop head)
 	fr.allocTop = topAtEntry
@@ -683,6 +684,18 @@ func (fr *FuncRun) enterLoop(f *Frame, head *ssa.BasicBlock, body map[*ssa.Basic
 	}
 	// 5. assume invariants
 	fr.assumeInvariants(f, head, cur, pre)
+	// 6. vacuity guard: the frame and the invariants assumed for the generic iteration must not contradict each other
+	// (everything in and after the loop would be proved vacuously)
+	if fr.scout == 0 {
+		base := fmt.Sprintf("loop%d", fr.loopOrdinal(f, head))
+		fr.names["cover:"+base]++
+		name := fmt.Sprintf("%s#cover:%s", fr.fnName(), base)
+		if k := fr.names["cover:"+base]; k > 1 {
+			name = fmt.Sprintf("%s#%d", name, k)
+		}
+		fr.obls = append(fr.obls, &Obligation{Name: name, Kind: "cover", Fn: fr.fnName(), Prefix: len(fr.lines), Reach: cur.reach, Cond: "false",
+			PrePrefix: preLines, PreReach: preReach, Desc: "the state assumed at the head of the loop (frame and invariants) is not contradictory (vacuity guard)"})
+	}
 }
 
 type autoLockInv struct{ addr, preVal string }
